@@ -308,7 +308,8 @@ def run(chk):
                     col = [A.plain(Sx)[i, j] for j in range(2) for i in range(4)]
                     for v in range(256):
                         extra = [S.as_sb(col[i] == ((v >> i) & 1)).n for i in range(8)]
-                        chk.add(f'clifford_multiply == sequential application [n={n}] entry {ei} case Sx[:, :2]={v:08b}', pre + extra, cl_, key='clifford_multiply != sequential', replay=rp)
+                        chk.add(f'clifford_multiply == sequential application [n={n}] entry {ei} case Sx[:, :2]={v:08b}', pre + extra, cl_, key='clifford_multiply != sequential', replay=rp,
+                                meta={'no_auto_reach': True})      # exhaustive case split over 8 bits: many cases contradict the symplectic constraints by design
                 else:
                     chk.add(f'clifford_multiply == sequential application, all (rx,Sx),(ry,Sy),P [n={n}] entry {ei}', pre, cl_, key='clifford_multiply != sequential', replay=rp)
             for ci_, c_ in enumerate(symplectic_constraints(Sz, n)):
